@@ -222,6 +222,8 @@ def dictOf : Entry → List (String × Option Int)
 
 /-! ### JaggedArray.__init__ -/
 
+/-- `int` = a bare integer in `shapes`: no longer produced by the writer since fix 49d3d18; kept so that the reader side
+(`Shapes.ints`: a file written by the old code raises on `sum(x)`) stays modelled -/
 inductive JShape | nd (s : List Nat) | int (n : Nat)
   deriving Repr, DecidableEq
 
@@ -238,7 +240,7 @@ def classifyJ : Entry → JItem
       if rows.length = 0 then .none else
       match rectangular rows with
       | some m => .data (.nd [rows.length, m]) dt rows.flatten
-      | none => .data (.int rows.flatten.length) dt rows.flatten   -- `shapes.append(len(flat),)` appends an int
+      | none => .err     -- np.array(arr) raises: a nested ragged entry is refused (fix 49d3d18; before: flattened, int in `shapes`)
   | .scal np dt v =>
       -- int / float / np.integer / np.floating (a Python bool is an int); anything else: TypeError (fix 8558ef4)
       if dt.isInt || dt.isFloat || (dt = .b && !np) then .data (.nd [1]) dt [v] else .err
